@@ -26,6 +26,7 @@ def main():
     prop = meta["property"]
     patch = os.path.join(sd, "patch.diff")
     demo = os.path.join(sd, "demo.py")
+    benign = bool(meta.get("benign"))
     res = {"property": prop, "tier": tier, "time": time.strftime("%Y-%m-%d %H:%M:%S")}
     ev = os.path.join(V, "evidence", prop + ".json")
     ev_backup = open(ev).read() if os.path.exists(ev) else None
@@ -37,17 +38,19 @@ def main():
         return 2
     try:
         env = dict(os.environ, PYTHONPATH=wt, PYTHONHASHSEED="0")
-        rc, out = sh("/venv/bin/python %s" % demo, cwd=wt, env=env, timeout=1200)
-        res["demo_without"] = rc
+        if not benign:
+            rc, out = sh("/venv/bin/python %s" % demo, cwd=wt, env=env, timeout=1200)
+            res["demo_without"] = rc
         rc, out = sh("git apply %s" % patch, cwd=wt)
         if rc != 0:
             res["apply_error"] = out[-500:]
             print("patch does not apply:", out)
             json.dump(res, open(os.path.join(sd, "result.json"), "w"), indent=1)
             return 2
-        rc, out = sh("/venv/bin/python %s" % demo, cwd=wt, env=env, timeout=1200)
-        res["demo_with"] = rc
-        res["demo_output"] = out[-600:]
+        if not benign:
+            rc, out = sh("/venv/bin/python %s" % demo, cwd=wt, env=env, timeout=1200)
+            res["demo_with"] = rc
+            res["demo_output"] = out[-600:]
         rc, out = sh("python3 %s/harness/baseline.py %s" % (V, wt), timeout=2400)
         res["suite_ok"] = (rc == 0)
         res["suite_line"] = out.strip().splitlines()[0] if out.strip() else ""
@@ -75,12 +78,18 @@ def main():
                 replay = {"error": str(e)}
         res["replay"] = replay
         res["caught"] = bool(rc == 1 and vl)
-        res["valid_seed"] = bool(res["demo_without"] == 0 and res["demo_with"] != 0 and res["suite_ok"])
+        if benign:
+            res["benign"] = True
+            res["valid_seed"] = bool(res["suite_ok"])
+            res["false_alarm"] = bool(rc != 0 or vl)
+            res["known_finding_lines"] = [l for l in out.splitlines() if l.startswith("KNOWN-FINDING")]
+        else:
+            res["valid_seed"] = bool(res["demo_without"] == 0 and res["demo_with"] != 0 and res["suite_ok"])
     finally:
         sh("git -C /repo worktree remove --force %s" % wt)
         shutil.rmtree(wt, ignore_errors=True)
     json.dump(res, open(os.path.join(sd, "result.json"), "w"), indent=1, default=str)
-    print(json.dumps({k: res.get(k) for k in ("property", "valid_seed", "demo_without", "demo_with", "suite_ok", "check_exit", "violation_line", "caught")}, indent=1))
+    print(json.dumps({k: res.get(k) for k in ("property", "benign", "false_alarm", "valid_seed", "demo_without", "demo_with", "suite_ok", "check_exit", "violation_line", "caught")}, indent=1))
     # after a run against a scratch repo, restore generated tables from /repo for everyone else
     if not in_repo:
         sh("./check %s quick >/dev/null 2>&1" % prop, cwd=V, timeout=3600)
